@@ -198,7 +198,7 @@ static void deliver_ps(int s, const m_evt_t *e, int idx_in_inv, int *is_trigger_
     int prio = PR_NORM, found = pe.pats == 0;
     if (pe.pats == 0) { if (e->userdata != NULL) vfail("EV.owner", "EV.owner|ps-userdata", "%s: direct message delivered with a non-NULL user pointer", m->name); }
     else {
-        for (int q = 0; q < NPAT; q++) if (pe.pats & (1u << q)) for (int v = 0; v < 2; v++) if (e->userdata == &UPV[s][q][v]) {
+        for (int q = 0; q < NPAT; q++) if (pe.pats & (1u << q)) for (int v = 0; v < 2; v++) if (UPVH[s][q] && m->sub[q].present && m->sub[q].af ? (v == 0 && e->userdata == UPVH[s][q]) : e->userdata == &UPV[s][q][v]) {
             found = 1; prio = pe.prio >= 0 ? pe.prio : (m->sub[q].present ? m->sub[q].prio : PR_NORM);
             if (m->sub[q].present && m->sub[q].oneshot) { m->sub[q].present = 0; TRACE("one-shot subscription %s of %s consumed", PAT[q], m->name); }
         }
@@ -260,7 +260,7 @@ static void handle_events(int s, const m_queue_t *evts, int handler_id) {
                 trig = high || (prio == PR_NORM && (size_t)(i + 1) >= eff_batch(s)); break; }
             case M_SRC_TYPE_FD: {
                 int k = -1, si = -1;
-                for (int j = 0; j < MAXSRC; j++) if (m->src[j].present && m->src[j].kind == K_FD && e->userdata == &SRCUP[s][j]) { si = j; k = m->src[j].key; }
+                for (int j = 0; j < MAXSRC; j++) if (m->src[j].present && m->src[j].kind == K_FD && e->userdata == SRCUPP(s, j)) { si = j; k = m->src[j].key; }
                 if (si < 0) vfail("EV.owner", "EV.owner|fd", "%s received a descriptor event whose user pointer matches none of its descriptor sources", m->name);
                 if (!(m->src[si].flags & 4) && e->fd_evt->fd != UFD[k].rd) vfail("EV.owner", "EV.owner|fd-value", "%s: descriptor event reports fd %d, registered %d", m->name, e->fd_evt->fd, UFD[k].rd);
                 if (UFD[k].bytes <= 0) vfail("EV.ghost", "EV.ghost|fd", "%s received a descriptor event although nothing is readable", m->name);
@@ -270,7 +270,7 @@ static void handle_events(int s, const m_queue_t *evts, int handler_id) {
                 break; }
             case M_SRC_TYPE_TMR: {
                 int si = -1;
-                for (int j = 0; j < MAXSRC; j++) if (m->src[j].present && m->src[j].kind == K_TMR && e->userdata == &SRCUP[s][j]) si = j;
+                for (int j = 0; j < MAXSRC; j++) if (m->src[j].present && m->src[j].kind == K_TMR && e->userdata == SRCUPP(s, j)) si = j;
                 if (si < 0) vfail("EV.owner", "EV.owner|tmr", "%s received a timer event whose user pointer matches none of its timer sources (internal timer leaked to the user?)", m->name);
                 if (e->tmr_evt->ns != TPER[m->src[si].key]) vfail("EV.owner", "EV.owner|tmr-value", "%s: timer event reports %lu ns, registered %lu", m->name, (unsigned long)e->tmr_evt->ns, (unsigned long)TPER[m->src[si].key]);
                 if (!m->src[si].fired) vfail("EV.ghost", "EV.ghost|tmr", "%s received a timer event although the timer did not expire", m->name);
@@ -279,7 +279,7 @@ static void handle_events(int s, const m_queue_t *evts, int handler_id) {
                 break; }
             case M_SRC_TYPE_SGN: case M_SRC_TYPE_PATH: case M_SRC_TYPE_PID: {
                 int kind = e->type == M_SRC_TYPE_SGN ? K_SGN : e->type == M_SRC_TYPE_PATH ? K_PATH : K_PID, si = -1;
-                for (int j = 0; j < MAXSRC; j++) if (m->src[j].present && m->src[j].kind == kind && e->userdata == &SRCUP[s][j]) si = j;
+                for (int j = 0; j < MAXSRC; j++) if (m->src[j].present && m->src[j].kind == kind && e->userdata == SRCUPP(s, j)) si = j;
                 if (si < 0) vfail("EV.owner", "EV.owner|env", "%s received a %s event whose user pointer matches none of its sources of that kind", m->name, KN[kind]);
                 int key = m->src[si].key;
                 if (kind == K_SGN && (int)e->sgn_evt->signo != ENV_SIGS[key]) vfail("EV.owner", "EV.owner|sgn-value", "%s: signal event reports %u, registered %d", m->name, e->sgn_evt->signo, ENV_SIGS[key]);
